@@ -298,13 +298,14 @@ SCENARIOS = {
 
 
 def make_scenario(name, backend):
-    script, allow_drop, stall = SCENARIOS[name]
+    base, _, policy = name.partition("@")
+    script, allow_drop, stall = SCENARIOS[base]
     so = {"stats_interval": 1e15}
     if name.startswith("req_after_"):
         so.update({"num_concurrent_reqs": 1, "pool_size": 1})
     return Scenario("%s|%s" % (name, backend), backend, [("c", "1.1.1.1"), ("d", "2.2.2.2")], script,
                     config={"subscription_limit": LIMIT}, storage_options=so, allow_drop=allow_drop, stall=stall,
-                    setup=_setup_store, horizon=30.0)
+                    setup=_setup_store, horizon=30.0, policy=policy or "actor")
 
 
 def sched_cases(tier):
@@ -314,7 +315,7 @@ def sched_cases(tier):
     env.boot()
     bound = 1 if tier == "quick" else 2
     for backend in ("sql", "kv"):
-        for name in SCENARIOS:
+        for name in [n + sfx for n in SCENARIOS for sfx in ("", "@fair")]:
             scn = make_scenario(name, backend)
             out.append(("sched", backend, name, (), tier))
             if bound >= 1:
@@ -328,7 +329,7 @@ def judge_schedule(x, name, viol, cid, sig):
     """R2 interval semantics on connection c's transcript"""
     w = x.world
     c = w.conns["c"]
-    script = [fr for cn, fr in SCENARIOS[name][0] if cn == "c"]
+    script = [fr for cn, fr in SCENARIOS[name.partition("@")[0]][0] if cn == "c"]
     # walk the transcript: track per sub-id the state machine
     recv_i = -1
     state = {}  # sid -> dict(open=bool, filters, eose=int, closed_mark=bool)
@@ -394,7 +395,7 @@ def judge_schedule(x, name, viol, cid, sig):
     # the other connection's REQs are answered too
     d = w.conns.get("d")
     if d is not None:
-        d_reqs = [fr for cn, fr in SCENARIOS[name][0] if cn == "d" and isinstance(fr, list) and fr[0] == "REQ"]
+        d_reqs = [fr for cn, fr in SCENARIOS[name.partition("@")[0]][0] if cn == "d" and isinstance(fr, list) and fr[0] == "REQ"]
         d_eose = sum(1 for k, _, p in d.transcript if k == "send" and p.startswith('["EOSE"'))
         d_notice = sum(1 for k, _, p in d.transcript if k == "send" and p.startswith('["NOTICE"'))
         if d_eose + d_notice < len(d_reqs) and not d.dropped:
